@@ -1,4 +1,6 @@
-"""Cross-check of the masked-argmin model of pyvc/ext_C17.py against numpy on random masked matrices.
+"""Cross-check of the models of pyvc/ext_C17.py against numpy: masked argmin on random masked matrices; plain matrix argmin / max / min /
+np.where; the three spellings of the pairwise-distance matrix (values over the reals, and the static float rule against what numpy computes
+in float32).
 
 Run:  /verif/.venv/bin/python tools/xcheck_ext_C17.py [cases=1000]      (exit 0 = the model agrees with numpy on every case)
 
@@ -28,6 +30,7 @@ from pyvc.spec import Registry
 from pyvc.values import frac
 from pyvc.verify import Verifier
 
+X.install()
 I, Rl, B = z3.IntSort(), z3.RealSort(), z3.BoolSort()
 
 
@@ -49,6 +52,148 @@ def run_model(d, k):
     flat = X._masked_argmin(E, arr, [], {})
     i, j = X._np_unravel_index(E, [flat, arr.__pyvc_getattr__(E, "shape")], {})
     return E, i.z, j.z
+
+
+# ------------------------------------------------------------------ plain-matrix models: argmin, max / min, np.where
+def _engine():
+    E = Verifier(Registry(), "C17")
+    E.cur_key = "xcheck:matrix"
+    return E
+
+
+def _unique_value(E, term, want):
+    """the assumed facts admit `want` for `term` and nothing else"""
+    s = z3.Solver()
+    s.add(*E.pc)
+    s.add(term == want)
+    ok1 = s.check() == z3.sat
+    s = z3.Solver()
+    s.add(*E.pc)
+    s.add(term != want)
+    return ok1 and s.check() == z3.unsat
+
+
+def check_plain(cases, rng):
+    bad = 0
+    for _ in range(cases):
+        n, m = rng.randint(1, 5), rng.randint(1, 5)
+        d = np.array([[rng.choice([0.0, 0.5, 1.0, 1.5, 2.0]) if rng.random() < 0.6 else rng.uniform(-3, 3) for _ in range(m)] for _ in range(n)])
+        k = np.array([[rng.random() < 0.4 for _ in range(m)] for _ in range(n)], dtype=bool)
+        # ndarray.argmin + unravel_index
+        E = _engine()
+        M = matrix(d, "real")
+        flat = X._m2_argmin(E, M, [], {})
+        i, j = X._np_unravel_index(E, [flat, M.__pyvc_getattr__(E, "shape")], {})
+        wi, wj = (int(x) for x in np.unravel_index(d.argmin(), d.shape))
+        if not (_unique_value(E, i.z, wi) and _unique_value(E, j.z, wj)):
+            bad += 1
+            print("MISMATCH argmin", d.tolist(), (wi, wj))
+        # max / min
+        for is_max in (True, False):
+            E = _engine()
+            r = X._m2_red(is_max)(E, matrix(d, "real"), [], {})
+            want = z3.RealVal(str(frac(float(d.max() if is_max else d.min()))))
+            if not _unique_value(E, r.z, want):
+                bad += 1
+                print("MISMATCH max/min", d.tolist())
+        # np.where(mask, scalar, matrix) and np.where(mask, matrix, matrix)
+        E = _engine()
+        c = rng.uniform(-2, 2)
+        W = X._np_where(E, [matrix(k, "bool"), frac(c), matrix(d, "real")], {})
+        W2 = X._np_where(E, [matrix(k, "bool"), matrix(d, "real"), matrix(-d, "real")], {})
+        w1, w2 = np.where(k, c, d), np.where(k, d, -d)
+        for a in range(n):
+            for b in range(m):
+                for Wm, wn in ((W, w1), (W2, w2)):
+                    got = z3.simplify(X.sel2(Wm.arr, a, b))
+                    if not z3.is_true(z3.simplify(got == z3.RealVal(str(frac(float(wn[a, b])))))):
+                        bad += 1
+                        print("MISMATCH where", a, b, got, wn[a, b])
+    print(f"matrix argmin / max / min / np.where: {cases} random matrices, mismatches: {bad}")
+    return bad
+
+
+# ------------------------------------------------------------------ distance matrices: the idioms and the float rule
+def cloud(P):
+    n = P.shape[0]
+    a = z3.Int("pa")
+    cols = []
+    for c in range(3):
+        body = z3.RealVal(0)
+        for r in range(n):
+            body = z3.If(a == r, z3.RealVal(str(frac(float(P[r, c])))), body)
+        cols.append(z3.Lambda([a], body))
+    return X.Points(cols, n)
+
+
+def _value(term):
+    """number denoted by a closed term in which rsqrt is the real square root"""
+    import math
+
+    t = z3.simplify(term)
+    if z3.is_rational_value(t) or z3.is_algebraic_value(t):
+        return float(t.as_fraction()) if z3.is_rational_value(t) else float(t.approx(20).as_fraction())
+    if t.decl().name() == "rsqrt":
+        return math.sqrt(_value(t.arg(0)))
+    raise ValueError(f"cannot evaluate {t}")
+
+
+def _run_source(E, src, P):
+    """run a straight-line numpy snippet (the carrier's own spelling) through the pyvc interpreter on a concrete cloud"""
+    import ast as _ast
+
+    from pyvc.interp import Frame
+
+    fr = Frame(vars=dict(points=P), globs=dict(np=np))
+    for st in _ast.parse(src).body:
+        E.exec(st, fr)
+    return fr.vars["dis"]
+
+
+IDIOMS = {
+    "norm of reshaped differences": "dis = np.linalg.norm(points.reshape((-1, 1, 3)) - points.reshape((1, -1, 3)), axis=2)",
+    "sqrt of summed squared differences": "diff = points[:, None, :] - points[None, :, :]\ndis = np.sqrt((diff**2).sum(axis=2))",
+    "Gram matrix": "sq = np.einsum('ij,ij->i', points, points)\ndis = np.sqrt(np.maximum(sq[:, None] + sq[None, :] - 2 * points @ points.T, 0))",
+}
+
+
+def check_distances(cases, rng):
+    bad = 0
+    worst = {k: 0.0 for k in IDIOMS}
+    for _ in range(cases):
+        n = rng.randint(2, 5)
+        off = rng.choice([0.0, 0.0, 1000.0, -2500.0])
+        P64 = np.array([[off + rng.uniform(0, 9) for _ in range(3)] for _ in range(n)], dtype=np.float32).astype(np.float64)
+        exact = np.sqrt(((P64[:, None, :] - P64[None, :, :]) ** 2).sum(axis=2))
+        for name, src in IDIOMS.items():
+            E = _engine()
+            dis = _run_source(E, src, cloud(P64))
+            fp = X.fp_of(dis)
+            clean = fp is not None and not fp.sites
+            if clean != (name != "Gram matrix"):
+                bad += 1
+                print("MISMATCH float rule", name, None if fp is None else [w for w, _ in fp.sites])
+            # (a) the model's real-number value is the Euclidean distance
+            for a in range(n):
+                for b in range(n):
+                    got = _value(X.sel2(dis.arr, a, b))
+                    if abs(got - exact[a, b]) > 1e-9 * (1 + exact[a, b]):
+                        bad += 1
+                        print("MISMATCH value", name, a, b, got, exact[a, b])
+            # (b) what numpy computes in float32 (the declared input dtype) against the float rule: an expression without
+            #     cancellation sites stays within gamma_k of the exact value, k = fp.ops
+            loc = dict(np=np, points=P64.astype(np.float32))
+            exec(src, loc)
+            f32 = np.asarray(loc["dis"], dtype=np.float64)
+            nz = exact > 0
+            rel = float((np.abs(f32 - exact)[nz] / exact[nz]).max())
+            worst[name] = max(worst[name], rel)
+            if clean and rel > 2 * fp.ops * 2.0 ** -24:
+                bad += 1
+                print("MISMATCH float bound", name, rel, fp.ops)
+    print(f"distance idioms: {cases} clouds (half of them ~1e3 away from the origin), mismatches: {bad}; worst float32 relative error: "
+          + ", ".join(f"{k}: {v:.2e}" for k, v in worst.items()) + f"  (gamma_6 ~ {6 * 2.0 ** -24:.1e})")
+    return bad
 
 
 def main():
@@ -106,6 +251,8 @@ def main():
             bad += 1
             print("MISMATCH", dict(numpy_allowed=ok1, numpy_only=ok2, derived_holds=ok3, obligation_true=ok4), d.tolist(), k.tolist(), want)
     print(f"masked argmin: {done} random masked matrices ({fully} fully masked), mismatches: {bad}")
+    bad += check_plain(max(20, cases // 5), rng)
+    bad += check_distances(max(10, cases // 20), rng)
     return 1 if bad else 0
 
 
